@@ -312,8 +312,14 @@ def gen_histories(chk):
         cut = ring_prefix(r) + rng.randint(1, 6 * r - 1)          # strictly inside ring r
         sa = [rng.randint(-6, 6), rng.randint(-6, 6)]
         sb = [rng.randint(-6, 6), rng.randint(-6, 6)]
-        ops = [dict(op="hex_open", id=0, radius=r, start=sa)]
+        sform = ["list", "row", "iter", "tuple", "ndarray32"][h % 5]
+        ops = [dict(op="hex_open", id=0, radius=r, start=sa, sform=sform)]
         kind = h % 3
+        # the generator reads `start` once, when it is first resumed; afterwards the caller may do what
+        # it likes with that object
+        first = rng.randint(1, max(1, min(cut - 1, 6)))
+        ops += [dict(op="hex_next", id=0, n=first), dict(op="hex_mutate", id=0, dx=rng.randint(-9, 9), dy=rng.randint(1, 9))]
+        cut -= first
         if kind == 0:
             ops += [dict(op="hex_next", id=0, n=cut), dict(op="hex_drop", id=0, close=bool(h % 2)),
                     dict(op="hex_full", radius=r, start=sb)]
@@ -321,7 +327,7 @@ def gen_histories(chk):
             ops += [dict(op="hex_next", id=0, n=cut), dict(op="hex_open", id=1, radius=r, start=sb),
                     dict(op="hex_next", id=1, n=10 ** 6), dict(op="hex_next", id=0, n=10 ** 6)]
         else:
-            ops.append(dict(op="hex_open", id=1, radius=r, start=sb))
+            ops.append(dict(op="hex_open", id=1, radius=r, start=sb, sform="list"))
             left = {0: cut, 1: ring_prefix(r) + 6 * r + 5}
             while any(left.values()):
                 i = rng.choice([k for k in left if left[k]])
@@ -332,6 +338,16 @@ def gen_histories(chk):
         ops.append(dict(op="hex_full", radius=rng.randint(0, r), start=[rng.randint(-3, 3), rng.randint(-3, 3)]))
         ops.append(dict(op="hex_full", radius=r, start=[0, 0]))
         out.append(dict(fn="history", ops=ops, kind="hexagons"))
+    for h in range(12 if quick else 60):
+        r = 2 + h % 5
+        ops = [dict(op="hex_open", id=0, radius=r, start=[rng.randint(-6, 6), rng.randint(-6, 6)],
+                    sform=["list", "row", "ndarray32", "iter"][h % 4]),
+               dict(op="hex_next", id=0, n=rng.randint(1, 7))]
+        for _ in range(r):
+            ops += [dict(op="hex_mutate", id=0, dx=rng.randint(-9, 9), dy=rng.randint(-9, 9)),
+                    dict(op="hex_next", id=0, n=rng.randint(1, 12))]
+        ops.append(dict(op="hex_next", id=0, n=10 ** 6))
+        out.append(dict(fn="history", ops=ops, kind="hexagons-start-modified"))
     for h in range(30 if quick else 300):
         ops = []
         for _ in range(rng.randint(8, 24)):
@@ -394,6 +410,8 @@ def expand_history(c, o, hid):
                     g["exhausted"] = True
         elif kind == "hex_drop":
             flush(op["id"], k)
+        elif kind == "hex_mutate":
+            pass                          # the caller's own object; judged through what the generator yields
         else:
             d = {kk: vv for kk, vv in op.items() if kk != "op"}
             d.update(fn={"hex_full": "hex"}.get(kind, kind), hist=hid, replay_history=ops[:k + 1])
@@ -500,13 +518,15 @@ def gen_phase1(chk):
         cases.append(dict(fn="minimise", v=[rng.randint(-2 ** 60, 2 ** 60) for _ in range(3)], big=True))
     # coordinate containers: the library only indexes / unpacks its coordinate arguments, so lists, numpy
     # integer arrays (rows of a table), tuples of numpy scalars and mixtures are inside the domain
-    CF = ["tuple", "list", "ndarray", "ndarray32", "row", "npscalars"]
+    CF = ["tuple", "list", "ndarray", "ndarray32", "row", "npscalars", "iter"]
     for i in range(700 if quick else 8000):
         fn = ["mesh_len", "mesh_path", "torus_len", "torus_path", "ldf", "minimise", "to_xyz", "hex",
               "from_vector"][i % 9]
         f1, f2 = rng.choice(CF), rng.choice(CF)
         if i % 4 == 0:
             f1 = f2 = rng.choice(CF[2:])
+        if fn in ("mesh_len", "torus_len"):       # these index their arguments: one-shot iterators are not sequences
+            f1, f2 = f1.replace("iter", "list"), f2.replace("iter", "list")
         w, h = rng.randint(1, 9), rng.randint(1, 9)
         a = (rng.randrange(w), rng.randrange(h))
         b = a if i % 5 == 0 else (rng.randrange(w), rng.randrange(h))
@@ -534,6 +554,25 @@ def gen_phase1(chk):
         else:
             c = dict(fn=fn, v=[rng.randint(-3, 3), rng.randint(-3, 3)], forms=dict(v=f1))
         cases.append(c)
+    # unsigned fixed-width vectors for the walks (components >= 0; z > 0 steps south-west, towards and across
+    # x = 0 / y = 0 when the start is a signed / Python coordinate)
+    UF = ["uint8", "uint16", "uint32", "uint64"]
+    for i in range(240 if quick else 4000):
+        v = [rng.choice([0, rng.randint(0, 5)]), rng.choice([0, rng.randint(0, 5)]), rng.randint(1, 4) if i % 4 else 0]
+        width, height = rng.choice([(None, None), (5, 3), (6, 7), (3, None), (None, 5), (16, 8)])
+        forms = dict(v=UF[i % 4])
+        if i % 3 == 0:
+            # an unsigned start admits no step in a negative direction at all under numpy 2 (adding the
+            # Python int -1 to an unsigned scalar raises OverflowError whatever its value): reported to
+            # the coordinator, kept out of this stream -- only East / North walks start unsigned
+            v[2] = 0
+            start = [rng.randint(0, 3), rng.randint(0, 3)]
+            forms["start"] = UF[(i // 4) % 4]
+        else:
+            start = [rng.randint(0, 2), rng.randint(0, 2)]
+            forms["start"] = rng.choice(["tuple", "list", "ndarray", "npscalars"])
+        cases.append(dict(fn="ldf", v=v, start=start, width=width, height=height,
+                          ks=[rng.randrange(TWO53) for _ in range(3)], forms=forms))
     # kernels
     for _ in range(200 if quick else 3000):
         cases.append(dict(fn="minimise", v=[rng.randint(-9, 9) for _ in range(3)]))
